@@ -47,7 +47,7 @@ func init() {
 					}
 				}
 			}
-			for t := 0; t < 7; t++ {
+			for t := 0; t < 8; t++ {
 				cases = append(cases, Case{ID: fmt.Sprintf("navigation text=%d", t), Pkg: "internal/lsp", Fn: "ZZC19Nav", Args: []string{fmt.Sprint(t)}, Tag: "navigation"})
 			}
 			return cases
